@@ -69,3 +69,44 @@ func verifH_C08_header_directions() {
 	verifAssert((err == nil) == want, "C08 header directions: an object-valued response header is validated as part of a response (write-only members forbidden and not required)")
 	verifReach("end")
 }
+
+//verif:harness id=C08 tier=quick,thorough witness=end,accepted,rejected bounds="response media type keys carrying parameters: declared content = non-empty subsets of {'text/plain; v=2', 'text/plain', 'text/*'} each with its own symbolic maxLength x response Content-Type in {'text/plain; v=2' (the exact key), 'text/plain', 'text/plain;v=2' (another spelling), 'text/html', 'image/png'} x body of 1-2 ASCII bytes: the entry is chosen by exact string, then bare type, then type/*; its schema decides, and a content type no entry covers is rejected"
+func verifH_C08_paramkey() {
+	keys := []string{"text/plain; v=2", "text/plain", "text/*"}
+	lens := []uint64{verifNondetUint64("lenExact"), verifNondetUint64("lenBare"), verifNondetUint64("lenWild")}
+	subset := 1 + verifChoose("declared", 7)
+	content := openapi3.Content{}
+	for i, k := range keys {
+		if subset&(1<<i) != 0 {
+			content[k] = &openapi3.MediaType{Schema: &openapi3.SchemaRef{Value: &openapi3.Schema{Type: &openapi3.Types{"string"}, MaxLength: &lens[i]}}}
+		}
+	}
+	d := "d"
+	resps := openapi3.NewResponsesWithCapacity(1)
+	resps.Set("200", &openapi3.ResponseRef{Value: &openapi3.Response{Description: &d, Content: content}})
+	op := &openapi3.Operation{Responses: resps}
+	cti := verifChoose("ct", 5)
+	ct := []string{"text/plain; v=2", "text/plain", "text/plain;v=2", "text/html", "image/png"}[cti]
+	text := verifLeaf("b", 2, "")
+	in := verifRespInput(op, "GET", 200, http.Header{"Content-Type": []string{ct}}, []byte(text), &Options{})
+	// text/html has no registered decoder: a plain-text one for the harness' sake
+	RegisterBodyDecoder("text/html", PlainBodyDecoder)
+	err := ValidateResponse(context.Background(), in)
+	chosen := -1
+	switch {
+	case cti == 0 && subset&1 != 0:
+		chosen = 0
+	case cti <= 2 && subset&2 != 0:
+		chosen = 1
+	case cti <= 3 && subset&4 != 0:
+		chosen = 2
+	}
+	want := chosen >= 0 && uint64(len(text)) <= lens[chosen]
+	if err == nil {
+		verifReach("accepted")
+	} else {
+		verifReach("rejected")
+	}
+	verifAssert((err == nil) == want, "C08 media type keys with parameters: the declared entry is chosen by exact string, then bare type, then type/*, and its schema decides; an uncovered content type is rejected")
+	verifReach("end")
+}
